@@ -59,6 +59,11 @@ CHECKS["C11"] = ("model_checking",
     "Trusted: MC_MainEvent as the design argument; 64-bit digest of the canonical result; coverage of permutations beyond adjacent transpositions/reversal is sampled.",
     "§4 C11")
 
+CHECKS["C09"] = ("model_checking",
+    "The Ok/Err verdict of every logged bank list is decided by MainEvent.tla from the bytes (model-checked composition of the format specs, as in C10); the type-state spec Pipeline.tla admits no panic/abort/hang outcome and no non-finite vertex. MC_EventShapes enumerates extreme-but-representable event shapes (i16::MIN/MAX/alternating samples, boundary lengths and requested-sample counts, one/all 79/only reset+FPN channels, duplicated/dropped/foreign/unknown/missing banks) which are concretised into CRC-valid packets; random names/bytes and simulated multi-track events (plain and re-encoded with an extreme sample, dropped or duplicated banks) add volume; everything runs through try_from_banks, timestamp, avalanches and vertex in the overflow-checked profile (thorough: both).",
+    "Verdicts are model-based; 'never panics' is exploration over the enumerated shapes and seeded events, not a proof. Large simulated events are judged for totality only.",
+    "§4 C09")
+
 NOT_APPLICABLE = {
     "C12": "population statistics of a floating-point pipeline against a physical forward model; TLA+/TLC has no reals or floats, so the spec cannot be the oracle",
     "C16": "decisive clause is a floating-point global minimisation over a continuum; only a numeric brute force could referee it, which is a different technique",
